@@ -51,6 +51,10 @@ def handle (args : List String) : Option String :=
   | ["scen", _name, steps] =>
     -- a stateful scenario (local calls and peer stanzas interleaved): same prediction
     if steps.isEmpty then none else some "ok"
+  | ["helperp", name, _typ, pages] => do
+    -- a helper against a peer that answers successive requests with successive pages
+    let _ ← hexDecode name
+    if pages.isEmpty then none else pure "ok"
   | ["helper", name, _typ, reply] => do
     let _ ← hexDecode name
     let _ ← hexDecode reply
